@@ -1,7 +1,7 @@
 """C15 -- Douglas: masked features inert, valid soft bins, active points as defined."""
 import itertools
 
-META = dict(level="proof", trusted_base=["z3 5.1", "own normal-form prover", "softmax contract", "NumPy object-array semantics (einsum, argsort, cumsum)"])
+META = dict(level="proof", trusted_base=["z3 5.1", "own normal-form prover", "installed sklearn softmax run on exact reals under its own contract", "NumPy object-array semantics (einsum, argsort, cumsum)"])
 
 
 def tasks(tier, seed):
@@ -16,6 +16,8 @@ def tasks(tier, seed):
     act = [(2, 1, 1), (2, 1, 2), (3, 1, 2), (2, 2, 2), (2, 1, 3)] + ([(3, 1, 3), (3, 2, 2)] if tier == "thorough" else [])
     for a in act:
         t.append(("contracts.douglas", "task", ("active", a, seed), to, f"active{list(a)}"))
+    from contracts import external_deps
+    t += external_deps.softmax_tasks(tier, seed)
     return t
 
 
@@ -27,7 +29,7 @@ def extra(led, tier, seed):
     led.extend(o for o in predict_glue.obligations() if o.name.startswith("Douglas."))
     from contracts import dtype_native
     led.extend(dtype_native.predict_dtypes(seed, only=("Douglas",)))
-    led.assume("A1", "A2", "A3", "A4", "A8", "A5: softmax contract (positive entries summing to 1 per row)",
+    led.assume("A1", "A2", "A3", "A4", "A8", "A5 (discharged, no longer assumed): the installed sklearn softmax has positive entries summing to 1 per row and equals the stub exp(h)/sum exp(h) (contracts/external_deps.py)",
                "L9: with logit differences (x - c_(j))/T, as T -> 0 the arg-max bin of a sample is the number of cut points below its value, "
                "so predictions become constant on the cells of the grid drawn by the cut points (stated consequence of the proved identity)",
                "back-propagation through the bins is the C03 VJP contract")
